@@ -587,3 +587,66 @@ def rule_liftstore(ctx):
     if n < 2:
         raise AnalysisError("R-LIFTSTORE: %d accesses of the collection of lifted definitions found (share and lift add to it)" % n)
     return res
+
+
+def rule_deffirst(ctx):
+    """R-DEFFIRST: a translated definition stands in front of the statements lifted out of it"""
+    from ..mir import Fn, Flow, op_root, place_fields
+    fx = ctx.fx
+    res = RuleResult("R-DEFFIRST", "the functions that translate one definition hand back the definition *followed by* the statements lifted out of "
+                     "its body (the collection the translation state adds to): the definition is put in front of what the state has collected "
+                     "(push_front / insert at 0). The code generator takes the first definition of the program for `main` - its parameter "
+                     "count becomes the argument count of the C driver and its label the entry point - so a definition that is appended "
+                     "behind its lifted statements (push / push_back) hands that role to a lifted label as soon as main's body lifts one")
+    n = 0
+    for k, f in sorted(fx.fns.items()):
+        if f["crate"] not in ("fun2core", "core2axcut") or "{" in k:
+            continue
+        fn = Fn(f)
+
+        def base(l, depth=0):
+            """the local a (re)borrow chain starts from"""
+            out = set()
+            for d in fn.defs().get(l, []):
+                if d["kind"] == "assign" and d["rv"]["k"] in ("ref", "use", "cast") and depth < 6:
+                    pl = d["rv"].get("pl") or (d["rv"].get("op") or {}).get("pl")
+                    if pl and not [e for e in pl["p"] if e != "*"]:
+                        out |= base(pl["l"], depth + 1)
+            return out or {l}
+        # the collection lent to the translation state
+        coll = set()
+        for bi, si, s in fn.stmts():
+            rv = s["rv"]
+            if rv["k"] == "agg" and (rv.get("adt") or "").endswith("State") and rv.get("fields"):
+                for fd, op in zip(rv["fields"], rv["ops"]):
+                    l = op_root(op)
+                    if l is None:
+                        continue
+                    ty = fn.f["locals"][l]["ty"]
+                    if "Def" in ty and ("VecDeque" in ty or "Vec<" in ty) and ty.startswith("&mut"):
+                        coll |= base(l)
+        if not coll:
+            continue
+        flow = Flow(fn)
+        for bi, t in fn.calls():
+            if t.get("callee_name") not in ("push", "push_back", "push_front", "insert") or not t["args"]:
+                continue
+            r0 = op_root(t["args"][0])
+            if r0 is None:
+                continue
+            tgt = base(r0)
+            if not (tgt & coll):
+                continue
+            n += 1
+            ikey = "%s@%s" % (k, t["callee_name"])
+            front = t["callee_name"] == "push_front" or (t["callee_name"] == "insert" and len(t["args"]) > 2 and t["args"][1].get("k") == "const" and str(t["args"][1].get("val")) == "0")
+            if front:
+                res.inst(ikey, t["sp"]["file"], t["sp"]["line"], "ok", "the definition is put in front of its lifted statements")
+            else:
+                res.inst(ikey, t["sp"]["file"], t["sp"]["line"], "violation")
+                res.violate(ikey, "%s appends the translated definition behind the statements lifted out of its body (%s): when main's body lifts a "
+                            "statement the program no longer starts with main - the entry point and the argument count of the C driver are "
+                            "taken from a lifted label" % (k.split("::")[-1], t["callee_name"]), t["sp"]["file"], t["sp"]["line"])
+    if n < 1:
+        raise AnalysisError("R-DEFFIRST: no function adds a translated definition to the collection it lends to the translation state")
+    return res
